@@ -539,7 +539,10 @@ impl rustc_driver::Callbacks for Cb {
     fn config(&mut self, config: &mut rustc_interface::Config) {
         config.opts.unstable_opts.mir_opt_level = Some(0);
     }
-    fn after_analysis<'tcx>(
+    // Export right after expansion, before the analysis passes run: some of them (coroutine layout
+    // checks) steal the `mir_promoted` of async fn bodies. Forcing `mir_promoted` here only builds
+    // and type-checks the bodies earlier than rustc would.
+    fn after_expansion<'tcx>(
         &mut self,
         _c: &rustc_interface::interface::Compiler,
         tcx: TyCtxt<'tcx>,
